@@ -167,7 +167,7 @@ def main() -> None:
                 res = {"reproduced": None, "detail": "no real-stack replay registered"}
             else:
                 ok, detail = o.real_replay(args)
-                res = {"reproduced": bool(ok), "detail": detail}
+                res = {"reproduced": None if ok is None else bool(ok), "detail": detail}
         else:
             raise SystemExit(f"unknown mode {mode}")
         _emit(res)
